@@ -864,6 +864,10 @@ func init() {
 					// full: never a BigMessage, always an error and a reset
 					for _, typ := range []byte{wire.PUBACK, wire.PUBREC, wire.PUBREL, wire.PUBCOMP, wire.SUBACK, wire.UNSUBACK, wire.PINGRESP} {
 						body := bytes.Repeat([]byte{0x60, 0x00}, 40+r.Intn(60))
+						if r.Intn(2) == 0 {
+							// bytes that would read as a short topic if the packet were taken for a PUBLISH
+							copy(body, []byte{0x00, 0x03, 'a', '/', 'b', 0x00, 0x07})
+						}
 						pk := append([]byte{typ << 4, byte(len(body))}, body...)
 						if typ == wire.PUBREL {
 							pk[0] |= 2
